@@ -134,8 +134,18 @@ fn mutations(arch: &Arch, thorough: bool) -> Vec<Mutation> {
     v
 }
 
-fn seeds_for(arch: &Arch) -> Vec<(&'static str, Vec<Vec<u8>>)> {
-    vec![("no-seed", vec![]), ("seed=source", vec![arch.source.clone()]), ("unrelated-seed", vec![b"qrstuvwxqrstuvwxqrstuvwx0987654321".to_vec()])]
+/// (name, seed files, prior output used in place)
+fn seeds_for(arch: &Arch) -> Vec<(&'static str, Vec<Vec<u8>>, Option<Vec<u8>>)> {
+    // in place over a prior output that holds the source's halves exchanged (moves + fetches)
+    let h = arch.source.len() / 2;
+    let mut swapped = arch.source[h..].to_vec();
+    swapped.extend_from_slice(&arch.source[..h]);
+    vec![
+        ("no-seed", vec![], None),
+        ("seed=source", vec![arch.source.clone()], None),
+        ("unrelated-seed", vec![b"qrstuvwxqrstuvwxqrstuvwx0987654321".to_vec()], None),
+        ("in-place-over-swapped-halves", vec![], Some(swapped)),
+    ]
 }
 
 pub struct IsoCtx {
@@ -170,9 +180,9 @@ impl IsoCtx {
         let mut mutated = base.clone();
         mutated.bytes = bytes;
         agg.add("corruptions_applied", 1);
-        for (sname, seeds) in seeds_for(base) {
+        for (sname, seeds, prior) in seeds_for(base) {
             for verify_output in [false, true] {
-                let sc = Scenario { prior: None, seed_output: false, seeds: seeds.clone(), fault: Fault::None, verify_output };
+                let sc = Scenario { prior: prior.clone(), seed_output: prior.is_some(), seeds: seeds.clone(), fault: Fault::None, verify_output };
                 let obs = run_scenario(&mutated, &sc);
                 agg.add("corrupted_clones", 1);
                 let detail = || json!({"leg": "library", "base": bases[*bi].name, "mutation": format!("{:?}", m), "seed": sname, "verify_output": verify_output, "outcome": format!("{:?}", obs.outcome), "output": hex(&obs.dev)});
@@ -416,7 +426,7 @@ pub fn run(rep: &mut Report) {
     rep.set("evaluations", json!(ev));
     rep.set("distinct_nontrivial", json!(rep.agg.distinct_count("errors") + rep.agg.distinct_count("server_cases")));
     rep.set("exhaustive", json!(true));
-    rep.set("rule", json!("for each small base archive (hash length >= 8; raw and compressed; duplicate chunk): every single-bit flip, every truncation length, every 1-byte (and every 3rd / every 2-byte) overwrite with {00, ff, xor 55} at every offset, every pair of chunk payloads swapped, 1 and 64 bytes of trailing garbage, each x {no seed, seed = source, unrelated seed} x {plain, verify-output} through the library flow, and a 1-in-7 (thorough 1-in-2) slice through the real clone_cmd on files; --verify-header: right value, each of its 512 single-bit flips, another 64-byte value, every proper prefix length 0..63, value + 1 and + 2 bytes; misbehaving server: 11 fault kinds at every request position x {plain, verify-output, seeded} through the real clone_cmd over loopback HTTP; oracle: failure or exactly the original source, header changes rejected at open, clone proceeds iff the pinned header checksum equals the archive's; non-trivial = distinct error messages + distinct server cases"));
+    rep.set("rule", json!("for each small base archive (hash length >= 8; raw and compressed; duplicate chunk): every single-bit flip, every truncation length, every 1-byte (and every 3rd / every 2-byte) overwrite with {00, ff, xor 55} at every offset, every pair of chunk payloads swapped, 1 and 64 bytes of trailing garbage, each x {no seed, seed = source, unrelated seed, in place over a prior output with the source's halves exchanged} x {plain, verify-output} through the library flow, and a 1-in-7 (thorough 1-in-2) slice through the real clone_cmd on files; --verify-header: right value, each of its 512 single-bit flips, another 64-byte value, every proper prefix length 0..63, value + 1 and + 2 bytes; misbehaving server: 11 fault kinds at every request position x {plain, verify-output, seeded} through the real clone_cmd over loopback HTTP; oracle: failure or exactly the original source, header changes rejected at open, clone proceeds iff the pinned header checksum equals the archive's; non-trivial = distinct error messages + distinct server cases"));
     rep.assume("hash length >= 8 as the property states; a panic counts as failure here (C15 judges crashes)");
 }
 
